@@ -6,36 +6,29 @@ import RTV.Gen.Regexes
 import RTV.Gen.CharTables
 import RTV.Gen.Emoji
 /-! Driver handlers for L11 `Choice` (C20).
-  bool.rec <cps>                          -> start:stop:textcps:0|1;…     (recognize_boolean)  | err:Other
-  bool.extract <cps>                      -> start:len:textcps:0|1:num/den;…                  | err:Other
+  bool.rec <fixed|prefix> <cps>                          -> start:stop:textcps:0|1;…     (recognize_boolean)  | err:Other
+  bool.extract <fixed|prefix> <cps>                      -> start:len:textcps:0|1:num/den;…                  | err:Other
   bool.tok <cps>                          -> cps;cps;…   (`-` for none: `none`)
   bool.mv <start> <n> <src tok>… <match tok>…   -> num/den | err:ZeroDivisionError
-  bool.rewrite <cps>                      -> cps   (remove_unicode_matches on the pattern text)
+  bool.rewrite <fixed|prefix> <cps>                      -> cps   (remove_unicode_matches on the pattern text)
 -/
 namespace RTV.Drv
 open RTV.Py RTV.Re RTV.Choice
 
 def boolEnv : Env := RTV.Choice.genEnv
 
-def boolEnvOld : Env where
-  T := RTV.Gen.reTables
-  trueRe := RTV.Gen.boolTrueRegex
-  falseRe := RTV.Gen.boolFalseRegex
-  tokenRe := RTV.Gen.boolTokenizerRegex
-  isEmoji c := inRangesArr RTV.Gen.emojiRanges c
-  isSpace c := inRangesArr RTV.Gen.spaceRanges c
-  lower := RTV.Preprocess.lowerWith (RTV.Preprocess.lowerFull RTV.Gen.lowerPairs RTV.Gen.lowerExpanding)
+def pickEnv (w : String) : Env := if w == "prefix" then RTV.Choice.genEnvPreFix else RTV.Choice.genEnv
 
 def showScore (s : Score) : String := s!"{s.num}/{s.den}"
 
 def hBoolRec : Handler
-  | [q] => match recognise boolEnv (parseCps q) with
+  | [w, q] => match recognise (pickEnv w) (parseCps q) with
     | some rs => ";".intercalate (rs.map fun r => s!"{r.start}:{r.stop}:{showCps r.text}:{showBool r.value}")
     | none => "err:Other"
   | _ => "bad-op"
 
 def hBoolExtract : Handler
-  | [q] => match extract boolEnv (parseCps q) with
+  | [w, q] => match extract (pickEnv w) (parseCps q) with
     | some rs => ";".intercalate (rs.map fun r =>
         s!"{r.start}:{r.len}:{showCps r.text}:{showBool r.value}:{showScore r.score}")
     | none => "err:Other"
@@ -58,7 +51,7 @@ def hBoolMv : Handler
   | _ => "bad-op"
 
 def hBoolRewrite : Handler
-  | [p] => showCps (removeUnicodeMatches (parseCps p))
+  | [w, p] => showCps (if w == "prefix" then removeUnicodeMatchesPreFix (parseCps p) else removeUnicodeMatches (parseCps p))
   | _ => "bad-op"
 
 def dispatchChoice (op : String) (args : List String) : Option String :=
